@@ -230,10 +230,11 @@ def check(drv, pid, tier, seed):
                                  property_predicates_violated_on_the_implementation=bad,
                                  explanation='the property\'s own predicates, evaluated by the harness on the observed behaviour of the real code, fail on this case', **static_fields))
     if static is not None and not static['ok']:
-        viol += 1
         if reported == 0:
+            viol += 1
             # nothing concrete was found by the correspondence of this run: the static difference is reported on its own
             f0 = static['failures'][0]
+            reported += 1
             violation(drv, pid, dict(property=pid, seed=seed, tier=tier, case='static', kind='proof-obligation', stage='late_files',
                                      theorem_or_correspondence='lemma %s of coq/%s (compiled by ./check %s only) no longer holds for the tables regenerated from the Go sources; all failing lemmas: %s'
                                                                % (f0['first_failing_lemma'], f0['file'], pid, ', '.join(static.get('failing_lemmas') or [])),
@@ -274,7 +275,7 @@ def check(drv, pid, tier, seed):
     ev = dict(property_id=pid, tier=tier, seed=seed, level='proof',
               coverage=dict(obligations=nobl, discharged=ndis,
                             checker_cmd='cd /verif/coq && coq_makefile -f _CoqProject -o Makefile && make -j16  (coqc 8.16.1, full .vo build); then coqc on build/%s/cases_*.v (vm_compute of the model on the generated histories)' % pid,
-                            trusted_base=assumptions_of(drv, pid) + TRUSTED_COMMON,
+                            trusted_base=assumptions_of(drv, pid) + (static.get('assumptions', []) if static is not None else []) + TRUSTED_COMMON,
                             evaluations=meta['cases'], distinct_nontrivial=meta['distinct_nontrivial'], rule=meta['rule'],
                             samples=meta['samples'], steps=meta['steps'],
                             traces_validated_against_impl=meta['cases'],
